@@ -791,3 +791,61 @@ pub fn repeat_count_family() -> Vec<String> {
     }
     out
 }
+
+// ---------------------------------------------------------------------------------------------
+// families added after the thirteenth round (appended to the case lists as well)
+
+/// texts that spell a value of another type, against that value, under every comparison and +
+pub fn spelled_values_family() -> Vec<String> {
+    let pairs = [("\"5\"", "5"), ("\" 2.50 \"", "2.5"), ("\"4\" + 2", "42"), ("\"1e3\"", "1000"), ("\"TRUE\"", "TRUE"), ("\"true\"", "TRUE"), ("\"NULL\"", "NULL"), ("\"\"", "0"), ("\"0\"", "0"), ("\"-0\"", "0"), ("\"inf\"", "INF"), ("\"[1]\"", "[1]"), ("\"NaN\"", "INF - INF"), ("\"0\"", "FALSE"), ("\"\"", "NULL"), ("\"1\"", "TRUE")];
+    let mut out = vec![];
+    let pre = format!("INF <- 1{}\n", "0".repeat(309));
+    for (s, v) in pairs {
+        out.push(format!("{pre}s <- {s}\nv <- {v}\nDISPLAY([s == v, v == s, s != v, v != s, NOT (s == v)])\nIF (s == v) {{\nDISPLAY(\"equal\")\n}} ELSE {{\nDISPLAY(\"different\")\n}}\nDISPLAY(s + v)\nl <- [v]\nn <- 0\nFOR EACH e IN l {{\nIF (e == s) {{\nn <- n + 1\n}}\n}}\nDISPLAY(n)\n"));
+    }
+    out
+}
+
+/// a list that (after the statement) contains itself, observed only through LENGTH and element reads: the element is
+/// the list itself
+pub fn self_containing_family() -> Vec<String> {
+    let mut out = vec![];
+    for make in ["x <- [x, 2]", "b <- [x, 2]\nx <- b", "APPEND(x, x)", "x[1] <- x", "INSERT(x, 1, x)", "x <- [[x], 2]\ny <- x[1]\nDISPLAY(LENGTH(y))", "PROCEDURE into(t, v) {\nt <- [v, 2]\nRETURN LENGTH(t)\n}\nDISPLAY(into(x, x))"] {
+        out.push(format!("x <- [1]\n{make}\nDISPLAY(LENGTH(x))\nDISPLAY(LENGTH(x[1]))\nAPPEND(x, 3)\nDISPLAY(LENGTH(x))\nDISPLAY(LENGTH(x[1]))\nDISPLAY(x[LENGTH(x)])\nx[LENGTH(x)] <- 4\nDISPLAY(LENGTH(x[1]))\n"));
+    }
+    out
+}
+
+/// an expression that begins with a parenthesis and goes on after it, at every position where an expression stands
+/// without parentheses of the construct's own - plain and fully parenthesised
+pub fn leading_paren_positions() -> Vec<(String, String)> {
+    let mut out = vec![];
+    let exprs = [("(n - 1) * 2", "((n - 1) * 2)"), ("(n) + 1", "((n) + 1)"), ("(l + [3])[3] - 1", "(((l + [3])[3]) - 1)"), ("(n > 1) AND TRUE", "((n > 1) AND TRUE)"), ("(n)", "((n))"), ("-(n) + 4", "((-(n)) + 4)"), ("(n - 1) MOD 2 + 1", "(((n - 1) MOD 2) + 1)"), ("[n][1] + (n)", "(([n][1]) + (n))")];
+    let positions = ["REPEAT @ TIMES {\nDISPLAY(\"it\")\n}\n", "x <- @\nDISPLAY(x)\n", "DISPLAY(@)\n", "IF (@) {\nDISPLAY(\"then\")\n}\n", "k <- 0\nREPEAT UNTIL (@) {\nk <- k + 1\nIF (k > 2) BREAK\n}\nDISPLAY(k)\n", "PROCEDURE f(n, l) {\nRETURN @\n}\nDISPLAY(f(2, [1, 2]))\n", "DISPLAY([@, 0])\n", "DISPLAY(l[@])\n", "PROCEDURE g(v) {\nRETURN v\n}\nDISPLAY(g(@))\n", "FOR EACH e IN [@] {\nDISPLAY(e)\n}\n", "l[1] <- @\nDISPLAY(l)\n", "REPEAT @ TIMES DISPLAY(\"it\")\n"];
+    for (plain, full) in exprs {
+        for pos in positions {
+            out.push((format!("n <- 2\nl <- [1, 2]\n{}", pos.replace('@', plain)), format!("n <- 2\nl <- [1, 2]\n{}", pos.replace('@', full))));
+        }
+    }
+    out
+}
+
+/// string literals with every escape-like sequence (valid, unknown, Unicode forms that other languages have)
+pub fn escape_forms() -> Vec<String> {
+    let mut out = vec![];
+    for body in ["\\u{41}", "\\u{D800}", "\\u{DFFF}", "\\u{110000}", "\\u{}", "\\u{FFFFFFFF}", "\\u{1F600}", "\\u", "\\u{", "\\u{41", "\\u41", "\\U{41}", "\\u{ 41 }", "\\u{G}", "\\x41", "\\x", "\\0", "\\e", "\\'", "\\a", "\\\\u{D800}", "\\N{DASH}", "\\101", "\\\r\n", "\\u{0}", "\\u{10FFFF}", "\\u{00000041}"] {
+        for ctx in ["x <- \"@\"", "DISPLAY(\"a@b\")\n", "\"@", "x <- \"@\" + \"@\"\nDISPLAY(x)\n"] {
+            out.push(ctx.replace('@', body));
+        }
+    }
+    out
+}
+
+/// whole-number keys beyond the range of 64-bit integers: different numbers are different keys
+pub fn huge_keys_family() -> Vec<String> {
+    let mut out = vec![];
+    for (a, b) in [("10000000000000000000", "20000000000000000000"), ("0 - 10000000000000000000", "0 - 20000000000000000000"), ("9223372036854775808", "9223372036854777856"), ("18446744073709551616", "36893488147419103232"), ("1000000000000000000000000000000", "1000000000000000019884624838656 * 2"), ("9007199254740992", "9007199254740994")] {
+        out.push(format!("IMPORT MOD \"MAP\"\nm <- MAP()\na <- {a}\nb <- {b}\nDISPLAY(a == b)\nDISPLAY(MAP_INSERT(m, a, \"first\"))\nDISPLAY(MAP_INSERT(m, b, \"second\"))\nDISPLAY(MAP_GET(m, a))\nDISPLAY(MAP_GET(m, b))\nDISPLAY(MAP_CONTAINS_KEY(m, b * 2))\nDISPLAY(LENGTH(MAP_KEYS(m, 0)))\n"));
+    }
+    out
+}
